@@ -30,6 +30,30 @@ def minrun_def(A, n, m, i):
     return z3.And(0 <= i, i < n, z3.Select(A, i), window)
 
 
+def minrun_skolem(A, n, m):
+    """the same definition with the existential skolemised: witness functions lo(i), hi(i).
+    D1(i): MR(i) => i in range, A[i], and [lo(i), hi(i)) is a window of True of length >= m around i
+    D2(i, a, c): any such window [a, c) around a True position i makes MR(i)
+    (D1 and D2 together are equivalent to MR(i) <=> minrun_def(i); a conservative definitional extension)"""
+    tag = str(A.get_id())
+    lo = z3.Function('minrun_lo_' + tag, z3.IntSort(), z3.IntSort())
+    hi = z3.Function('minrun_hi_' + tag, z3.IntSort(), z3.IntSort())
+    k = z3.Int('mr_k')
+
+    def window(a, c):
+        return z3.ForAll([k], z3.Implies(z3.And(a <= k, k < c), z3.Select(A, k)))
+
+    def D1(i):
+        return z3.Implies(MR(A, n, m, i),
+                          z3.And(0 <= i, i < n, z3.Select(A, i), 0 <= lo(i), lo(i) <= i, i < hi(i), hi(i) <= n,
+                                 hi(i) - lo(i) >= m, window(lo(i), hi(i))))
+
+    def D2(i, a, c):
+        return z3.Implies(z3.And(0 <= i, i < n, z3.Select(A, i), 0 <= a, a <= i, i < c, c <= n, c - a >= m, window(a, c)),
+                          MR(A, n, m, i))
+    return lo, hi, window, D1, D2
+
+
 @specfn('minrun')
 def minrun(E, b, m, i):
     if not isinstance(b, Arr) or b.ty != BOOL:
